@@ -56,6 +56,15 @@ class C01(MsgProp):
         for n in g.numbers:
             for _ in range(per):
                 yield ("ENC " + g.message(r, n, "valid"), "generated", True)
+        # every listing shape of the bias lists, not a random pick of them (descending / scattered satellites,
+        # one satellite, all satellites, capacity)
+        for n, fid in ((1059, "df_msg1059_biases"), (1065, "df_msg1065_biases")):
+            if n not in g.numbers:
+                continue
+            for shape in ("small", "scattered", "allsats", "many-per-sat", "cap", "empty", "scattered", "small"):
+                head = g.frag(r, g.mod_of[n], "valid")
+                c = [k for k, t in enumerate(head) if t.startswith("c")][0]
+                yield ("ENC %d %s" % (n, " ".join(head[:c] + g.bias_list(r, fid, "valid", shape=shape))), "bias-" + shape, True)
         # decoded-from-frames messages
         frames = []
         for n in g.numbers:
